@@ -736,13 +736,16 @@ class Blockwise(ArrayExpr):
         out_ind = self.out_ind
         out_chunks = self.chunks
 
+        aligned_args = self.args
         if self.align_arrays:
-            # The block ranges below are ranges of the *unified* layout, but
-            # each operand is cut at its own block boundaries: only right when
-            # the operands are on the unified layout already.
-            _, _, changed = unify_chunks_expr(*self.args)
+            # The block ranges below are ranges of the *unified* layout, and
+            # each operand is cut at its own block boundaries: put the
+            # operands on the unified layout first (what _lower would do).
+            _, arrays, changed = unify_chunks_expr(*self.args)
             if changed:
-                return None
+                aligned_args = []
+                for idx, arr in zip(self.args[1::2], arrays):
+                    aligned_args.extend([arr, idx])
 
         # For each output axis, compute block range and output adjustment
         block_ranges = []  # (first_block, last_block) for each axis
@@ -786,7 +789,7 @@ class Blockwise(ArrayExpr):
                 return None
 
         # Map output block ranges to input slices
-        args = self.args
+        args = aligned_args
         new_args = []
 
         for i in range(0, len(args), 2):
